@@ -449,6 +449,17 @@ def conventional(rng, name, feat=None):
         svcs[0].rpc("Probe", P + ".ProbeRequest", P + ".Aux", http={"get": f"/{uver}/{{name=probes/*}}"}, sigs=["name"])
         svcs[1].rpc("Probe", P + ".AdminProbeRequest", P + ".Aux", http={"get": f"/{uver}/{{name=adminProbes/*}}"}, sigs=["name"])
         tags.add("same-rpc-name-two-services")
+    if rng.random() < 0.5:
+        # method signatures that flatten a map and a list (the clients apply these with update()/extend())
+        q = f.message("SetLabelsRequest")
+        q.field("name", "string", required=True)
+        q.map("labels", "string", "string")
+        q.field("aliases", "string", repeated=True)
+        q.map("quotas", "string", "int64")
+        q.field("auxes", P + ".Aux", repeated=True)
+        sig = rng.choice([["name,labels"], ["name,aliases"], ["name,labels,aliases"], ["name,quotas", "name,labels,auxes"]])   # always covering the HTTP path field (C13's convention)
+        rng.choice(svcs).rpc("SetLabels", P + ".SetLabelsRequest", P + ".Aux", http={"post": f"/{uver}/{{name=labelled/*}}:setLabels"}, body="*", sigs=sig)
+        tags.add("flattened-map-or-list")
     if feat.get("odd_rpcs"):
         # RPC names that collide with Python keywords or with attributes of the transport classes
         q = f.message("OddRequest")
@@ -1568,7 +1579,8 @@ def respath_api(rng, name, npat=36):
 
 
 AUTOPOP_VIOLATIONS = ["unknown_method", "server_streaming", "client_streaming", "nested_field", "required_field", "int_field",
-                      "bytes_field", "unannotated", "other_format", "duplicate_selector", "unknown_field", "message_field"]
+                      "bytes_field", "unannotated", "other_format", "duplicate_selector", "unknown_field", "message_field",
+                      "duplicate_selector_long_running_only", "duplicate_selector_empty_fields", "duplicate_of_unpopulated"]
 
 
 def autopop_api(rng, name, violation=None):
@@ -1623,9 +1635,15 @@ def autopop_api(rng, name, violation=None):
         "unannotated": {"selector": f"{S}.Untouched", "auto_populated_fields": ["plain_id"]},
         "other_format": {"selector": f"{S}.Untouched", "auto_populated_fields": ["ipv4_id"]},
         "duplicate_selector": {"selector": f"{S}.Create", "auto_populated_fields": ["third_id"]},
+        "duplicate_selector_long_running_only": {"selector": f"{S}.Create", "long_running": {"initial_poll_delay": "5s"}},
+        "duplicate_selector_empty_fields": {"selector": f"{S}.Fetch", "auto_populated_fields": []},
+        "duplicate_of_unpopulated": {"selector": f"{S}.Untouched", "auto_populated_fields": ["request_id"]},
         "unknown_field": {"selector": f"{S}.Untouched", "auto_populated_fields": ["no_such_field"]},
         "message_field": {"selector": f"{S}.Untouched", "auto_populated_fields": ["sub_id"]},
     }
+    if violation == "duplicate_of_unpopulated" or rng.random() < 0.4:
+        # an entry that configures something else for a method: valid, and populates nothing
+        settings.insert(rng.randint(0, len(settings)), {"selector": f"{S}.Untouched", "long_running": {"initial_poll_delay": "3s"}})
     if violation:
         settings.insert(rng.randint(0, len(settings)), bad[violation])
     api.info["method_settings"] = settings
@@ -1807,6 +1825,34 @@ def selective_api(rng, name):
     q.field("tree", P + ".Tree")
     q.field("kind", "enum:" + P + ".Outer.Kind")
     s2.rpc("Grow", P + ".GrowRequest", P + ".Tree", http={"post": "/v1/grow"}, body="*")
+    # an LRO whose response lives in a dependency and whose metadata type nothing else reaches
+    pm = fo.message("PurgeMeta")
+    pm.field("purged", "int32")
+    q = f.message("PurgeBooksRequest")
+    q.field("parent", "string")
+    s1.rpc("PurgeBooks", P + ".PurgeBooksRequest", ".google.longrunning.Operation",
+           http={"post": "/v1/{parent=shelves/*}/books:purge"}, body="*",
+           lro=("google.protobuf.Empty", rng.choice(["PurgeMeta", pkg + ".PurgeMeta"])))
+    # an RPC whose type graph is drawn per case: oneof members, map values, a type used only here, an enum from the
+    # enum-only file reached through a repeated field, a message of the LRO-only file reached through a field
+    only = fs.message("OnlyForAnnotate")
+    only.field("note", "string")
+    only.field("states", st, repeated=True)
+    q = f.message("AnnotateRequest")
+    q.field("name", "string")
+    choices = [("tag", P + ".Tag"), ("outer", P + ".Outer"), ("only", P + ".OnlyForAnnotate"), ("text", "string"), ("deep", P + ".Outer.Inner.Deep")]
+    rng.shuffle(choices)
+    for nm, t in choices[:rng.randint(2, 4)]:
+        q.field("as_" + nm, t, oneof="what")
+    if rng.random() < 0.6:
+        q.map("tags_by_key", "string", rng.choice([P + ".Tag", P + ".OnlyForAnnotate", "enum:" + P + ".Genre"]))
+    if rng.random() < 0.5:
+        q.field("shelf", "string", ref=f"{name}.googleapis.com/Shelf")
+    o = f.message("AnnotateResponse")
+    o.field("genres", gn, repeated=True)
+    if rng.random() < 0.5:
+        o.field("tree", P + ".Tree")
+    s2.rpc("Annotate", P + ".AnnotateRequest", P + ".AnnotateResponse", http={"post": "/v1/annotate"}, body="*")
     api.options = ["transport=grpc", "autogen-snippets=false"]
     api.info.update(pkg=pkg, version=ver, ns=["vp"], name=name, host=f"{name}.googleapis.com")
     return api
@@ -1863,5 +1909,13 @@ def sample_api(rng, name, transport="grpc"):
             svc.rpc(f"Do{i}", P + f".Do{i}Request", ".google.longrunning.Operation", http={"post": f"/v1/{{name=widgets/*}}:do{i}"}, body="*",
                     lro=(f"Do{i}Response", f"Do{i}Request"))
         tags.add("sample-form:" + form)
+    # services of one package served from different hosts: the region tag is per service
+    from google.api import client_pb2
+    for fl in api.files:
+        for i, sv in enumerate(fl.pb.service):
+            if sv.options.HasExtension(client_pb2.default_host) and (i or fl is not f) and rng.random() < 0.6:
+                sv.options.Extensions[client_pb2.default_host] = rng.choice([f"{name}admin.example.com", f"other-{name}.googleapis.com:443",
+                                                                             f"{sv.name.lower()}.{name}.example.org"])
+                tags.add("service-on-another-host")
     api.options = [f"transport={transport}", "autogen-snippets"]
     return api
